@@ -3,6 +3,7 @@
 package proxy
 
 import (
+	"net/url"
 	"crypto/tls"
 	"github.com/fabiolb/fabio/metrics"
 	"fmt"
@@ -35,11 +36,18 @@ func c13Expand(tmpl, escPath, query, host, strip, prepend string) (string, bool)
 		base, tq = base[:i], base[i+1:]
 	}
 	p := escPath
-	if strip != "" && strings.HasPrefix(p, strip) {
-		p = p[len(strip):]
+	if dec, err := url.PathUnescape(escPath); strip != "" && err == nil && strings.HasPrefix(dec, strip) {
+		// strip and prepend values are plain text of the route: the part of the escaped path that spells the
+		// strip value goes (however the client escaped it), the prepend value is escaped like any path
+		for i := 0; i <= len(escPath); i++ {
+			if d, err := url.PathUnescape(escPath[:i]); err == nil && d == strip {
+				p = escPath[i:]
+				break
+			}
+		}
 	}
 	if prepend != "" {
-		p = prepend + p
+		p = (&url.URL{Path: prepend}).EscapedPath() + p
 	}
 	hasPath := strings.Contains(base, "$path")
 	out := base
@@ -68,7 +76,7 @@ func c13Expand(tmpl, escPath, query, host, strip, prepend string) (string, bool)
 
 func TestVerifC13Inputs(t *testing.T) {
 	L := ev.Begin("C13", "c13-inputs", "exploration",
-		"14 redirect templates (every form of docs/http-redirects.md and target_test.go, with/without own query, $host, $path with and without separating slash, an own path that needs escaping) x request path (incl. %2F, %20, %C3%A4, strip-prefix-only) x query x host (with/without port) x strip x prepend x code (301,302,303,307,308 valid; 299,400,abc invalid) x request kind (plain, websocket upgrade, event stream), served by the real HTTPProxy.ServeHTTP; oracle: status, Location = independent expansion on the escaped path, upstream never contacted; invalid codes never redirect, every code 300..399 answers with that code, path-changing redirects on the own host are issued; self redirects are recognised with the scheme named by X-Forwarded-Proto and, for directly connected clients, with the scheme of the connection. non-trivial = template with $path or $host")
+		"14 redirect templates (every form of docs/http-redirects.md and target_test.go, with/without own query, $host, $path with and without separating slash, an own path that needs escaping) x request path (incl. %2F, %20, %C3%A4, strip-prefix-only) x query x host (with/without port) x strip x prepend (plus values of both that need escaping themselves and a strip prefix spelled with an escape) x code (301,302,303,307,308 valid; 299,400,abc invalid) x request kind (plain, websocket upgrade, event stream), served by the real HTTPProxy.ServeHTTP; oracle: status, Location = independent expansion on the escaped path, upstream never contacted; invalid codes never redirect, every code 300..399 answers with that code, path-changing redirects on the own host are issued; self redirects are recognised with the scheme named by X-Forwarded-Proto and, for directly connected clients, with the scheme of the connection. non-trivial = template with $path or $host")
 	paths := []string{"/", "/a", "/a/b", "/a%2Fb", "/a%20b", "/%C3%A4", "/s", "/s/a", "/s/a%2Fb"}
 	queries := []string{"", "q=1", "q=1&r=%2F"}
 	hosts := []string{"foo.com", "foo.com:8080"}
@@ -93,6 +101,13 @@ func TestVerifC13Inputs(t *testing.T) {
 				}
 			}
 		}
+	}
+	// strip / prepend values that need escaping themselves, and a strip prefix the client spells with an escape
+	for _, tm := range []string{"https://t.example$path", "https://t.example/x/$path"} {
+		jobs = append(jobs, job{tm, "/%C3%A4/x%2Fy", "q=1", "foo.com", "/\u00e4", "", "301"},
+			job{tm, "/%73/a%2Fb", "", "foo.com", "/s", "", "301"},
+			job{tm, "/a%2Fb", "", "foo.com", "", "/caf\u00e9", "301"},
+			job{tm, "/%C3%A4/a%2Fb", "", "foo.com", "/\u00e4", "/caf\u00e9", "308"})
 	}
 	L.Set("cases", len(jobs))
 	rigParallel(len(jobs), func(r *rig, i int) {
